@@ -84,6 +84,9 @@ struct Net {                         // flat per-link queues of integers (decima
 	std::vector<std::vector<long> > count;
 	std::vector<bool> cut;           // cut[i]: party i is silent (everything it sends is dropped)
 	std::vector<long> *sent_total = NULL, *cut_after = NULL;   // shared over both nets: party i crashes after cut_after[i] sends
+	// scripted deviations: a hook may rewrite what party `from` sends to party `to` (a single integer, or a whole vector as the
+	// reliable broadcast sends it)
+	std::function<void(size_t from, size_t to, std::vector<std::string> &)> rewrite;
 	Net(size_t n_in): n(n_in), q(n_in, std::vector<std::deque<std::string> >(n_in)), count(n_in, std::vector<long>(n_in, 0)), cut(n_in, false) {}
 };
 
@@ -99,6 +102,7 @@ class Aio : public aiounicast {
 			if (net->cut[j]) return true;
 			if (net->cut_after && (*net->cut_after)[j] >= 0) { if ((*net->sent_total)[j] >= (*net->cut_after)[j]) return true; (*net->sent_total)[j]++; }
 			char *c = mpz_get_str(NULL, 10, m); std::string v(c); free(c);
+			if (net->rewrite && !in_vector) { std::vector<std::string> one(1, v); net->rewrite(j, i_in, one); v = one[0]; }
 			for (size_t k = 0; k < net->tampers.size(); k++) {
 				Net::Tamper &t = net->tampers[k];
 				if (t.from == j && t.to == i_in && t.index == idx) {
@@ -111,7 +115,15 @@ class Aio : public aiounicast {
 			numWrite++; sc->activity();
 			return true;
 		}
+		bool in_vector = false;
 		virtual bool Send(const std::vector<mpz_srcptr> &m, const size_t i_in, const time_t timeout = aio_timeout_default) {
+			if (net->rewrite) {
+				std::vector<std::string> vs; for (size_t k = 0; k < m.size(); k++) { char *c = mpz_get_str(NULL, 10, m[k]); vs.push_back(c); free(c); }
+				net->rewrite(j, i_in, vs);
+				in_vector = true; bool ok = true;
+				for (size_t k = 0; k < vs.size() && ok; k++) { mpz_t x; mpz_init_set_str(x, vs[k].c_str(), 10); ok = Send(x, i_in, timeout); mpz_clear(x); }
+				in_vector = false; return ok;
+			}
 			for (size_t k = 0; k < m.size(); k++) if (!Send(m[k], i_in, timeout)) return false;
 			return true;
 		}
